@@ -117,6 +117,8 @@ C06_THEOREMS = [
     "dopri5_interp_left", "dopri5_interp_right", "dop853_interp_left", "dop853_interp_right", "C06_dopri5_endpoints",
     "ContM.c06_not_enabled", "ContM.c06_cover", "ContM.c06_first_hit", "ContM.c06_many_no_panic", "ContM.c06_from_segments",
     "ContM.c06_constant", "SolOutM.c06_collect",
+    "BdfNum.c06_bdf_interp_ends", "BdfNum.c06_bdf_change_d", "BdfNum.interp_nodes", "BdfNum.changeD_poly", "BdfNum.changeD_keeps_d0",
+    "BdfNum.denseCont_get",
 ]
 
 
@@ -157,6 +159,7 @@ def c06(c):
     if c.build_harness() and c.build_driver():
         c.stream("xcont", ["xcont", c.seed, 1500 if c.tier == "quick" else 30000], "cont")
         handler_stream(c)
+        bdfnum_stream(c)
         n = 120 if c.tier == "quick" else 1500
         generic_monitor(c, "dense_check", ["dense-check", c.seed, n], "dense")
     c.cov["samples"] += [
@@ -165,7 +168,7 @@ def c06(c):
         {"theorem": "ContM.c06_cover", "statement": "Chain fwd x (s :: r) → sol_span = (x, end) ∧ x ≠ end ∧ (min x end ≤ t ≤ max x end → ∃ s' ∈ segs, sol t = ok s'.id ∧ t within tol of s') ∧ (t outside → sol t = OutOfRange)   (both directions, any number of steps)"},
         {"theorem": "SolOutM.c06_collect", "statement": "step … = some (s', f) → s'.denseSegs = if collectDense ∧ x ≠ xold ∧ ip.h ≠ 0 then s.denseSegs.push (ip.xold, ip.h) else s.denseSegs"},
     ]
-    c.partial = ["Radau and BDF interpolants and BDF change_d are covered by the dense_check monitor on the implementation (all six methods), not yet by theorems",
+    c.partial = ["Radau's interpolant is covered by the dense_check monitor on the implementation, not yet by a theorem; BDF's interpolant and change_d are theorems about the full numeric model (orders 1..5), which X-bdfnum ties to the solver bit for bit",
                  "the segment lookup theorems take the chain property of the collected segments (each starts where the previous one ended) as hypothesis: it follows from the callback protocol (C19) and c06_collect in exact arithmetic; in binary64 `xold + h` is recomputed by the lookup from the stored pair, which X-cont and dense_check exercise",
                  "binary64 rounding at the ends ('to rounding'): theorems are exact-arithmetic"]
 
@@ -176,6 +179,7 @@ C07_THEOREMS = [
     "rk4_dense_not_order4", "rk23_dense_not_order4", "dopri5_dense_not_order5", "dop853_dense_not_order8",
     "rk4_dense_weights", "rk23_dense_weights", "dopri5_dense_weights", "dop853_dense_weights", "dop853_extra_stage_eqs",
     "BTree.forall_of_all",
+    "BdfNum.c07_bdf_interp_is_step_polynomial", "BdfNum.c07_bdf_update_keeps_differences", "BdfNum.interp_nodes", "BdfNum.update_bdiff",
 ]
 
 
@@ -183,12 +187,16 @@ def c07(c):
     common_proof(c, "IvpModel.Props.C07", C07_THEOREMS)
     if c.build_harness():
         order_monitor(c, want_dense=True)
+        generic_monitor(c, "bdf_dense_check", ["bdf-dense-check", c.seed], "bd")
+        if c.build_driver():
+            bdfnum_stream(c)
     c.cov["samples"] += [
         {"theorem": "dopri5_dense_order4", "statement": "∀ t : BTree, t.order ≤ 4 → dopri5Dense.condTree t = true   (Σ_i w_i(θ)Φ_i(t) = θ^|t|/γ(t) coefficientwise)"},
         {"theorem": "dop853_dense_weights", "statement": "interpolate (xold+θh) xold h (dense1/dense2 blocks) = denseVal dop853Dense 16 h θ y (K1,K6..K16), all n, h ≠ 0, θ"},
     ]
     c.partial = ["continuous Butcher theorem (conditions ⇒ uniform O(h^{q+1}) error) is cited, not formalised",
-                 "Radau (collocation polynomial) and BDF interpolant accuracy: only observed by the order monitor (Radau) / dense_check"]
+                 "Radau (collocation polynomial) interpolant accuracy: only observed by the order monitor",
+                 "BDF: the interpolant is proved to be the polynomial through the last k+1 accepted values (k = 1..5) on an equidistant grid; after a step-size change the history is the rescaled one (change_d preserves the polynomial, C06); 'as accurate as the step' itself is measured by bdf_dense_check"]
 
 
 # ---------------------------------------------------------------------------------------------- C17
@@ -295,6 +303,11 @@ def radau_stream(c):
     return c.stream("xradau", ["xradau", c.seed, 150 if c.tier == "quick" else 3000], "radau")
 
 
+def bdfnum_stream(c):
+    """X-bdfnum: the full numeric model of BDF::solve re-run on the logged right-hand side / Jacobian of real runs"""
+    return c.stream("xbdfnum", ["xbdfnum", c.seed, 120 if c.tier == "quick" else 3000], "bdfnum")
+
+
 def only_keys(c, prefixes):
     """keep monitor violations whose finding key starts with one of `prefixes` (other properties own the rest)"""
     c.violations = [v for v in c.violations if v["kind"] != "implementation-vs-oracle"
@@ -384,6 +397,7 @@ def c18(c):
     if c.build_harness() and c.build_driver():
         solve_stream(c)
         radau_stream(c)
+        bdfnum_stream(c)
         generic_monitor(c, "interval_check", ["interval-check", c.seed, 250 if c.tier == "quick" else 5000], "iv")
         generic_monitor(c, "protocol_check", ["protocol-check", c.seed, 100 if c.tier == "quick" else 2000], "pr")
     only_keys(c, ("c18",))
@@ -588,13 +602,15 @@ def c13(c):
 
 # ---------------------------------------------------------------------------------------------- C01 (accuracy)
 C01_THEOREMS = ["c01_errnorm_spec_dopri5", "c01_errnorm_spec_rk23", "c01_errnorm_spec_radau", "c01_radau_tolerances", "c01_accept_iff",
-                "c01_tol_monotone_dopri5", "c01_tol_monotone_rk23", "c01_controller_bounds", "sqrtLaws_real", "errSum_anti", "accepted_componentwise"]
+                "c01_tol_monotone_dopri5", "c01_tol_monotone_rk23", "c01_controller_bounds", "sqrtLaws_real", "errSum_anti", "accepted_componentwise",
+                "c01_errnorm_spec_bdf"]
 
 
 def c01(c):
     common_proof(c, "IvpModel.Props.C01", C01_THEOREMS)
     if c.build_harness() and c.build_driver():
         solve_stream(c)
+        bdfnum_stream(c)
         generic_monitor(c, "accuracy_check", ["accuracy-check", c.seed, 300 if c.tier == "quick" else 6000], "ac")
     only_keys(c, ("c01",))
     c.cov["samples"] += [
@@ -614,6 +630,7 @@ def c14(c):
     common_proof(c, "IvpModel.Props.C14", C14_THEOREMS)
     if c.build_harness() and c.build_driver():
         radau_stream(c)
+        bdfnum_stream(c)
         generic_monitor(c, "stiff_check", ["stiff-check", c.seed, 30 if c.tier == "quick" else 600], "st", timeout=3000)
         generic_monitor(c, "interval_check", ["interval-check", c.seed, 120 if c.tier == "quick" else 2000], "iv")
     only_keys(c, ("c14", "c04-hang"))
